@@ -477,6 +477,9 @@ func (cx *Ctx) keepTrimIdiom(d hev) (string, bool) {
 		return "", false
 	}
 	sl, ok := ia.X.(*ssa.Slice)
+	if ok && sl.Low != nil && sl.High == nil {
+		return cx.keepTrimDescending(d, ci, sl)
+	}
 	if !ok || sl.Low != nil || sl.High == nil {
 		return "", false
 	}
@@ -604,4 +607,81 @@ func (cx *Ctx) stateCallbackAfterPersist(r *Report, rule string) int {
 		}
 	}
 	return n
+}
+
+// keepTrimDescending: the mirrored form of the keep-trim idiom - the keys are collected
+// newest first (reverse iterator) and the TAIL is deleted:
+//
+//	keys := <all keys, descending>; excess := len(keys) − keep   (possibly min(·, len(keys)))
+//	for _, key := range keys[len(keys)-excess:] { store.Delete(key) }
+//
+// which keeps the newest `keep`. Deleting keys[:excess] of a descending list (or the tail
+// of an ascending one) removes the newest values and is not this idiom.
+func (cx *Ctx) keepTrimDescending(d hev, ci ssa.CallInstruction, sl *ssa.Slice) (string, bool) {
+	lenOf := func(v ssa.Value, of ssa.Value) bool {
+		lc, ok := v.(*ssa.Call)
+		if !ok || len(lc.Common().Args) != 1 || lc.Common().Args[0] != of {
+			return false
+		}
+		b, isB := lc.Common().Value.(*ssa.Builtin)
+		return isB && b.Name() == "len"
+	}
+	// Low = len(S) − E
+	low, ok := sl.Low.(*ssa.BinOp)
+	if !ok || low.Op != token.SUB || !lenOf(low.X, sl.X) {
+		return "", false
+	}
+	// S: snapshot taken with a reverse iterator
+	sc, ok := sl.X.(*ssa.Call)
+	if !ok {
+		return "", false
+	}
+	g := sc.Common().StaticCallee()
+	if g == nil || !cx.snapshotCollector(g) {
+		return "", false
+	}
+	rev := false
+	for _, p := range cx.primsOf(g) {
+		if p.Kind == "store.iter" {
+			return "", false
+		}
+		if p.Kind == "store.riter" {
+			rev = true
+		}
+	}
+	if !rev {
+		return "", false
+	}
+	fn := ci.Parent()
+	if len(fn.Params) == 0 {
+		return "", false
+	}
+	last := fn.Params[len(fn.Params)-1]
+	isK := func(v ssa.Value) bool {
+		for {
+			if cv, ok := v.(*ssa.Convert); ok {
+				v = cv.X
+				continue
+			}
+			break
+		}
+		return v == ssa.Value(last)
+	}
+	// E = len(S) − K, or min(len(S) − K, len(S)) in either order
+	isLenMinusK := func(v ssa.Value) bool {
+		bo, ok := v.(*ssa.BinOp)
+		return ok && bo.Op == token.SUB && lenOf(bo.X, sl.X) && isK(bo.Y)
+	}
+	e := low.Y
+	okE := isLenMinusK(e)
+	if mc, ok := e.(*ssa.Call); ok && !okE {
+		if b, isB := mc.Common().Value.(*ssa.Builtin); isB && b.Name() == "min" && len(mc.Common().Args) == 2 {
+			a0, a1 := mc.Common().Args[0], mc.Common().Args[1]
+			okE = isLenMinusK(a0) && lenOf(a1, sl.X) || isLenMinusK(a1) && lenOf(a0, sl.X)
+		}
+	}
+	if !okE {
+		return "", false
+	}
+	return d.w.ts.Of(last, d.ev.Fr).LooseString(), true
 }
